@@ -114,7 +114,9 @@ Inductive flow :=
 | FRawExt                      (* DecodeRawExt: RawExt.setData(xbs, att >= dBytesAttachViewZerocopy) *)
 | FNakedExt                    (* kInterfaceNaked, valueTypeExt without registered ext: setData(bytes, false) *)
 | FRaw                         (* rawBytes *)
-| FSymEntry.                   (* binc: the bytes stored in the symbol table *)
+| FSymEntry                    (* binc: the bytes stored in the symbol table *)
+| FIfaceBytesKey.              (* kMap, key type interface{}, the key decoded to a []byte (already kept by
+                                  FNakedBytes): turned into a string key *)
 
 (* kMap (decode.go:1086-1200): kstr = stringView(bs); mapKeyStringSharesBytesBuf = att <= Buffer.
    If it shares: with a buffered io reader it is detached at once (d.c is still
@@ -123,6 +125,13 @@ Inductive flow :=
    stored (doMapSet = false) is used for the lookup only. *)
 Definition mapKeyStr (o : dopts) (t : transport) (b : bview) : region :=
   if mutable (st b) then detach2Str o (is_bufio t) b else reg b.
+
+(* kMap (decode.go:1101-1108): kstr = bytes2Str(rvGetBytes(rvk2), dBytesAttachView), so it
+   always "shares"; it is detached like a string key, but with the variable [att], which
+   is only ever assigned for string-typed keys: here it still holds its zero value
+   (dBytesAttachInvalid), so the key is always copied *)
+Definition ifaceBytesKey (o : dopts) (t : transport) (b : bview) : region :=
+  detach2Str o (is_bufio t) (mkview (reg b) AInvalid (len b)).
 
 Definition keep (o : dopts) (t : transport) (f : flow) (b : bview) : region :=
   match f with
@@ -134,7 +143,13 @@ Definition keep (o : dopts) (t : transport) (f : flow) (b : bview) : region :=
   | FNakedExt => Fresh
   | FRaw => rawBytes o t b
   | FSymEntry => detach2Bytes b
+  | FIfaceBytesKey => ifaceBytesKey o t b
   end.
+
+(* the length class of what detach2Bytes returns: a copy has cap = len, the empty copy is zeroByteSlice *)
+Definition detach2Bytes_len (b : bview) : lenc :=
+  if cap_is0 (len b) || noCopy (st b) then len b
+  else if len_is0 (len b) then L0c else len b.
 
 (* ---------- the transport: what a read hands back (reader.go) ---------- *)
 
@@ -176,8 +191,8 @@ Definition sym_region (entry : region) : region :=
 
 Definition sym_view (o : dopts) (t : transport) (l : lenc) : bview :=
   let '(r, ub, l') := readxb t l in
-  let e := keep o t FSymEntry (mkview r (attachState o t ub) l') in
-  mkview (sym_region e) ADetach l'.
+  let v := mkview r (attachState o t ub) l' in
+  mkview (sym_region (keep o t FSymEntry v)) ADetach (detach2Bytes_len v).
 
 (* None: the driver has no such operation (or it cannot yield that length class) *)
 Definition produce (o : dopts) (t : transport) (f : format) (p : pop) : option bview :=
@@ -234,7 +249,7 @@ Definition all_regions : list region := [Input; ReaderBuf; Scratch; Table; Stati
 Definition all_lencs : list lenc := [L0c; L0; L1; LSmall; LBig].
 Definition all_flows : list flow :=
   [FString false; FString true; FMapKeyStr; FNakedBytes; FBytesInto false; FBytesInto true;
-   FRawExt; FNakedExt; FRaw; FSymEntry].
+   FRawExt; FNakedExt; FRaw; FSymEntry; FIfaceBytesKey].
 Definition all_pops : list pop :=
   [PNil; PScratchNil; PJsonLit; PJsonEmptyB64]
   ++ map PReadxb all_lencs ++ map PScratch all_lencs ++ map PJsonPlain all_lencs
